@@ -219,6 +219,25 @@ def struct_sum(st):
                  exercises=["impl/src/sum_like.rs::expand"])
 
 
+def sum_with_own_operator_shape():
+    """Sum / Product are *defined* as the fold with the type's own Add / Mul: with a hand-written, not field-wise operator on the struct the derived
+    Sum / Product must follow it (seed C10-sum-folds-field-wise-not-via-add folded field by field instead)."""
+    decl = ("#[derive(Clone, Copy, PartialEq, Debug, derive_more::Sum, derive_more::Product)]\npub struct S(pub V, pub W);\n"
+            "impl core::ops::Add for S { type Output = S; fn add(self, r: S) -> S { S(self.0 + r.0, W(mix(900, self.1 .0, r.0 .0))) } }\n"
+            "impl core::ops::Mul for S { type Output = S; fn mul(self, r: S) -> S { S(V(mix(901, r.0 .0, self.1 .0)), self.1 * r.1) } }")
+    src = ""
+    hs = []
+    for t, m, sym in (("Sum", "sum", "+"), ("Product", "product", "*")):
+        src += ("    #[kani::proof]\n    #[kani::unwind(5)]\n    fn own_operator_%(m)s() {\n        let xs = [S(V(kani::any()), W(kani::any())), S(V(kani::any()), W(kani::any())), S(V(kani::any()), W(kani::any()))];\n"
+                "        let len: usize = kani::any();\n        kani::assume(len <= 3);\n        let got: S = xs[..len].iter().copied().%(m)s();\n"
+                "        let mut acc = S(<V as core::iter::%(t)s>::%(m)s(core::iter::empty::<V>()), <W as core::iter::%(t)s>::%(m)s(core::iter::empty::<W>()));\n"
+                "        let mut i = 0;\n        while i < len {\n            acc = acc %(sym)s xs[i];\n            i += 1;\n        }\n"
+                "        assert!(got == acc, \"%(m)s differs from folding with the struct's own operator\");\n        kani::cover!(len == 3, \"three elements\");\n    }\n") % dict(m=m, t=t, sym=sym)
+        hs.append(Harness("own_operator_" + m, "iterator length 0..=3 symbolic, every element field a free u32", covers=1, unwind=5,
+                          asserts="iter.%s() == fold(field-wise empty value, the struct's hand-written `%s`)" % (m, sym)))
+    return Shape("c10_sum_with_own_operator", module(decl, src), hs, decl.replace("\n", " "), exercises=["impl/src/sum_like.rs::expand"])
+
+
 # -------------------------------------------------------------------------------------------------- enums
 
 ENUMS = {
@@ -338,6 +357,7 @@ def shapes(tier):
             out.append(sh)
         if st.tag in ("tuple2", "named1"):
             out += [struct_scalar(st, True), struct_scalar_assign(st, True)]
+    out.append(sum_with_own_operator_shape())
     for ename, variants in ENUMS.items():
         q = ename in ("mixed", "single")
         sh = enum_binops(ename, variants, ADD_LIKE, False, "addlike")
